@@ -48,6 +48,9 @@ class Interp(BaseMixin, ExprMixin, AttrMixin, CallMixin, BuiltinsMixin, StmtMixi
         self._con_targets: Dict[str, Any] = {}
         self.function_models: Dict[str, Any] = {}
         self.mutation_counter = 0
+        self.meta_boxes = {}
+        self.qual_stack = []
+        self.meta_ops = []
 
     # -- third-party / library functions with models (keyed by function object)
     def call_function(self, func, args, kwargs, fr, node=None, owner=None):
